@@ -49,7 +49,7 @@ POLICIES = ["SHARED", "SHARED", "SHARED", "FATPIPE", "SPLITDUPLEX"]
 
 
 @st.composite
-def platforms(draw, one_core=False):
+def platforms(draw, one_core=False, p_asym=1):
     nh = draw(st.integers(2, 3))
     hosts = []
     for i in range(nh):
@@ -75,7 +75,7 @@ def platforms(draw, one_core=False):
     routes = []
     for i in range(nh):
         for j in range(i + 1, nh):
-            if draw(st.integers(0, 2)) == 0:
+            if draw(st.integers(0, 2)) < p_asym:
                 routes.append({"src": "h%d" % i, "dst": "h%d" % j, "links": one_route(), "sym": False})
                 routes.append({"src": "h%d" % j, "dst": "h%d" % i, "links": one_route(), "sym": False})
             else:
@@ -90,8 +90,8 @@ def platforms(draw, one_core=False):
 @st.composite
 def programs(draw, tier="quick"):
     cpu = draw(st.sampled_from(["Lazy", "Lazy", "Full", "TI"]))
-    plat = draw(platforms(one_core=(cpu == "TI")))
     xt = draw(st.integers(0, 1))
+    plat = draw(platforms(one_core=(cpu == "TI"), p_asym=2 if xt else 1))   # cross-traffic: the reverse route matters, make it differ often
     cfg = ["network/model:CM02", "network/crosstraffic:%d" % xt, "network/TCP-gamma:0", "cpu/optim:" + cpu,
            "network/optim:" + draw(st.sampled_from(["Lazy", "Lazy", "Full"]))]
     workers = [h["name"] for h in plat["hosts"] if h["name"] != INJ_HOST]
@@ -105,7 +105,7 @@ def programs(draw, tier="quick"):
     for a in actors:
         if draw(st.integers(0, 3)) == 0:
             a["ops"].append(["sleep", draw(st.sampled_from(SLEEPS))])
-    kinds = ["comm"] * 6 + ["exec", "exec", "sleep", "wait", "remote_exec"] + (["io"] * 2 if disks else []) + ["join", "mutex"]
+    kinds = ["comm"] * 7 + ["exec", "sleep", "wait", "wait", "remote_exec", "remote_exec"] + (["io"] * 2 if disks else []) + ["join", "mutex"]
 
     def new_handle():
         next_h[0] += 1
@@ -157,7 +157,7 @@ def programs(draw, tier="quick"):
         elif kind == "sleep":
             ops.append(["sleep", draw(st.sampled_from(SLEEPS))])
         elif kind == "wait":
-            if len(pending[k]) >= 2 and draw(st.booleans()):
+            if len(pending[k]) >= 2 and draw(st.integers(0, 3)) > 0:
                 ops.append(["wait_any", list(pending[k]), {}])          # the handles stay pending: waited again at the end
             elif pending[k]:
                 h = pending[k].pop(draw(st.integers(0, len(pending[k]) - 1)))
@@ -461,7 +461,11 @@ class Replay:
         a = self.actors.get(l["a"])
         if a is not None:
             if a["alive"] and not a["finished"] and a["dead_at"] is None and self.deadlock is None:
-                self.drop_posts(l["a"])     # killed for another reason (reported elsewhere): its pending posts leave the mailboxes too
+                a["alive"] = False
+                self.drop_posts(l["a"])
+                for act in list(self.acts.values()):    # the communications it takes part in fail: its peers are told
+                    if act.kind == "comm" and act.state == "running" and l["a"] in (act.send[0], act.recv[0]):
+                        self.fail(act, T(l["t"]), l["n"], "its participant %s was killed" % l["a"])     # killed for another reason (reported elsewhere): its pending posts leave the mailboxes too
             a["alive"] = False
 
     def drop_posts(self, an):
@@ -807,8 +811,8 @@ class Replay:
         # I1: every obligation was met (the date and the type were checked when the operation returned)
         for (an, idx), ob in self.oblig.items():
             a = self.actors[an]
-            if ob.get("met") or a["dead_at"] is not None or an in killed:
-                continue
+            if ob.get("met") or a["dead_at"] is not None or killed:
+                continue            # (a killed survivor is reported above; what follows from its death is not modelled in the right order)
             self.bad("blocked-forever-on-failed-activity" + (":%s" % ob["act"].kind if ob.get("act") else ":join"),
                      "%s#%d never returned although %s at %r" % (an, idx, ob["why"], ob["date"]))
         # I4: who is blocked at the end
@@ -817,7 +821,7 @@ class Replay:
             blocked = {b["a"] for b in self.deadlock["blocked"]}
             for an in sorted(blocked):
                 a = self.actors.get(an)
-                if a is None or a["cur"] is None or an in not_killed:
+                if a is None or a["cur"] is None or an in not_killed or killed:
                     continue
                 idx, op = a["cur"]
                 o = op[0]
